@@ -350,9 +350,9 @@ type c36Gen struct {
 
 func (g *c36Gen) rule() c36Rule {
 	switch k := rapid.IntRange(0, 9).Draw(g.rt, "ruleKind"); {
-	case k == 0:
+	case k == 8:
 		return c36Rule{Kind: "nolimit"}
-	case k == 1:
+	case k == 9:
 		return c36Rule{Kind: "zero"}
 	default:
 		g.uid++ // every b/d rule of a case has its own duration, so the reported limiter identifies the rule
